@@ -87,7 +87,7 @@ inductive Err where
   | invalidStateChange (src dst : Status)
   | timeoutReached | invalidBeaconID | invalidScheme | invalidKeyScheme
   | genesisTimeNotEqual | noGenesisSeedForFirstEpoch | genesisTimeNotConsistentWithProposal
-  | genesisSeedCannotChange | selfMissingFromProposal | cannotJoinIfNotInJoining
+  | genesisSeedCannotChange | schemeCannotChange | beaconPeriodCannotChange | selfMissingFromProposal | cannotJoinIfNotInJoining
   | joiningAfterFirstEpochNeedsGroupFile | invalidEpoch | leaderCantJoinAfterFirstEpoch
   | leaderNotRemaining | leaderNotJoining | onlyJoinersAllowedForFirstEpoch | noNodesRemaining
   | missingNodesInProposal | cannotProposeAsNonLeader | thresholdHigherThanNodeCount | nodeCountTooLow
@@ -111,6 +111,8 @@ def Err.name : Err → String
   | .noGenesisSeedForFirstEpoch => "ErrNoGenesisSeedForFirstEpoch"
   | .genesisTimeNotConsistentWithProposal => "ErrGenesisTimeNotConsistentWithProposal"
   | .genesisSeedCannotChange => "ErrGenesisSeedCannotChange"
+  | .schemeCannotChange => "ErrSchemeCannotChange"
+  | .beaconPeriodCannotChange => "ErrBeaconPeriodCannotChange"
   | .selfMissingFromProposal => "ErrSelfMissingFromProposal"
   | .cannotJoinIfNotInJoining => "ErrCannotJoinIfNotInJoining"
   | .joiningAfterFirstEpochNeedsGroupFile => "ErrJoiningAfterFirstEpochNeedsGroupFile"
@@ -187,6 +189,8 @@ def validateReshareTerms (cur : DBState) (t : Terms) : Except Err Unit := do
 def validateReshareForRemainers (cur : DBState) (t : Terms) : Except Err Unit := do
   if t.genesisTime != cur.genesisTime then throw .genesisTimeNotEqual
   if t.genesisSeed != cur.genesisSeed then throw .genesisSeedCannotChange
+  if t.schemeID != cur.schemeID then throw .schemeCannotChange
+  if t.periodSec != cur.periodSec then throw .beaconPeriodCannotChange
   match cur.finalGroup with
   | none => throw .panicNilFinalGroup
   | some g =>
